@@ -8,6 +8,8 @@
   * `invented`   a pop returned a value whose push had not been called yet
   * `duplicate`  a value was returned by two pops
   * `order`      (FIFO) push a returned before push b was called, yet pop→b returned before pop→a was called
+                 (LIFO) push a returned, then push b was called and returned, then pop→a was called and
+                 returned before the pop that took b was called (b was on top of a all the time)
   * `lost`       (at quiescence, after the harness drained the container) a successfully pushed value was never popped
   * `emptyLie`   a pop reported empty although some value was present during the whole call
                  (its push had returned before the pop was called and no pop that started
@@ -84,6 +86,12 @@ structure Cfg where
       try-variants built on a single weak CAS): only judge failures of operations that
       overlapped no other operation at all -/
   failOnlyAlone : Bool := false
+  /-- (with `disc := .fifo`) only per-producer FIFO is promised: an order violation needs the
+      two pushes to come from the same thread (relaxed MPSC queue) -/
+  perProducerFifo : Bool := false
+  /-- (optimistic MPMC FIFO, C13) EMPTY is also legitimate while any push is in flight:
+      judge only an EMPTY whose pop overlapped no push operation at all -/
+  emptyOkInFlight : Bool := false
 
 def check (cfg : Cfg) (ops : List Op) : Option String :=
   let pushes := ops.filter (fun o => o.isPush && o.ok)
@@ -108,11 +116,26 @@ def check (cfg : Cfg) (ops : List Op) : Option String :=
   let orderBad : Option String :=
     if cfg.disc = .fifo then
       (pushes.findSome? fun a => pushes.findSome? fun b =>
-        if a.ret < b.call then
+        if a.ret < b.call && (!cfg.perProducerFifo || a.thread = b.thread) then
           match popOf a.val, popOf b.val with
           | some pa, some pb =>
             if pb.ret < pa.call then some s!"order: {a.val} pushed before {b.val} but popped after it" else none
           | _, _ => none
+        else none)
+    else if cfg.disc = .lifo then
+      -- push a completed, THEN push b was called and completed, THEN pop→a was called and
+      -- completed before the pop that took b was even called (or b was never taken): b sat
+      -- on top of a during the whole pop→a, so no stack can have returned a
+      (pushes.findSome? fun a => pushes.findSome? fun b =>
+        if a.ret < b.call then
+          match popOf a.val with
+          | some pa =>
+            if b.ret < pa.call && (match popOf b.val with
+                | some pb => pa.ret < pb.call
+                | none => true) then
+              some s!"order: {b.val} was pushed on top of {a.val} but {a.val} was popped from under it"
+            else none
+          | none => none
         else none)
     else none
   match orderBad with
@@ -125,7 +148,8 @@ def check (cfg : Cfg) (ops : List Op) : Option String :=
   | none =>
   -- emptyLie
   let lie := if cfg.checkEmpty then
-      empties.find? (fun e => (!cfg.failOnlyAlone || alone e) && pushes.any (fun a => a.ret < e.call &&
+      empties.find? (fun e => (!cfg.failOnlyAlone || alone e) &&
+        (!cfg.emptyOkInFlight || allPushCalls.all (fun q => q.ret < e.call || e.ret < q.call)) && pushes.any (fun a => a.ret < e.call &&
         match popOf a.val with
         | some p => e.ret < p.call
         | none => true))
